@@ -501,6 +501,29 @@ func runProperty(w *World, res *checkResult, thorough bool, timeoutMs int) {
 			o2.Output = strings.Join(parts, " | ")
 		}
 		all = append(all, o2)
+		// a goroutine that blocks on a channel while it holds a mutex is released by another goroutine; that goroutine
+		// must never wait for the mutex: every such site needs a `lockfree` declaration for the mutex it holds
+		o3 := &Obligation{Name: "lockorder:blocking-covered", Fn: "lockorder", Kind: "lockorder", Tags: []string{p}, Goal: "true", Status: "trivial",
+			Src: fmt.Sprintf("every blocking channel operation under a held mutex (%d sites) is covered by a lockfree declaration for that mutex", len(lo.blocks))}
+		var uncovered []string
+		for i, b := range lo.blocks {
+			for _, cls := range lo.blockCl[i] {
+				ok := false
+				for _, wd := range w.cs.Writers {
+					if wd.LockFree && shortKey(wd.Field) == cls {
+						ok = true
+					}
+				}
+				if !ok {
+					uncovered = append(uncovered, b)
+				}
+			}
+		}
+		if len(uncovered) > 0 {
+			o3.Status, o3.Solver, o3.Goal = "sat", "syntactic", "false"
+			o3.Output = strings.Join(uncovered, " | ")
+		}
+		all = append(all, o3)
 	}
 	if p == "C14" {
 		// the yes/no answer of an expired timer is atomic with arming and stopping only because the running mark,
